@@ -514,6 +514,133 @@ def wide_numbers():
     return out
 
 
+def benzo_assembly(rng):
+    """a 4-7 membered base ring with 2-3 benzene rings fused on pairwise non-adjacent bonds (biphenylene / fluorene /
+    dibenzo-cycloheptane type), optional exocyclic =O / heteroatom on a free base atom: after thiele() the base ring keeps
+    SINGLE ring bonds between aromatic atoms — the only context where `-` must be written inside a ring"""
+    size = rng.choice([4, 5, 5, 6, 7])
+    base = list(range(1, size + 1))
+    edges = [(base[i], base[(i + 1) % size]) for i in range(size)]
+    orders = {e: 1 for e in edges}
+    nxt = size + 1
+    free = list(range(size))          # indices of base bonds still available
+    used_atoms = set()
+    for _ in range(rng.choice([2, 2, 3])):
+        cand = [i for i in free if base[i] not in used_atoms and base[(i + 1) % size] not in used_atoms]
+        if not cand:
+            break
+        i = rng.choice(cand)
+        a, b = base[i], base[(i + 1) % size]
+        used_atoms |= {a, b}
+        free.remove(i)
+        x = [nxt, nxt + 1, nxt + 2, nxt + 3]
+        nxt += 4
+        orders[(a, b) if (a, b) in orders else (b, a)] = 2
+        ring = [(b, x[0], 1), (x[0], x[1], 2), (x[1], x[2], 1), (x[2], x[3], 2), (x[3], a, 1)]
+        for p, q, o in ring:
+            edges.append((p, q))
+            orders[(p, q)] = o
+    elements = {}
+    rest = [v for v in base if v not in used_atoms]
+    if rest and rng.random() < 0.6:
+        v = rng.choice(rest)
+        kind = rng.choice(['keto', 'N', 'O', 'gem'])
+        if kind == 'keto':
+            edges.append((v, nxt)); orders[(v, nxt)] = 2; elements[nxt] = 'O'; nxt += 1
+        elif kind in ('N', 'O'):
+            elements[v] = kind
+        else:
+            edges += [(v, nxt), (v, nxt + 1)]; orders[(v, nxt)] = 1; orders[(v, nxt + 1)] = 1; nxt += 2
+    m = molgen.from_edges(edges, elements, orders, None, nxt - 1)
+    m.thiele()
+    return m
+
+
+def stereo_polycycle(rng):
+    """fused / bridged / spiro assemblies of three or more rings with a few substituents, every chiral tetrahedral centre
+    labelled at random through add_atom_stereo (not through the SMILES reader): ring-fusion centres carry two closure
+    digits, and with three rings closure numbers are recycled"""
+    # ortho-/peri-fused and bridged assembly: every new ring shares a bond (or a two-bond path) with the rings so far
+    size = rng.choice([5, 6, 6])
+    edges = [(i, i % size + 1) for i in range(1, size + 1)]
+    deg = {v: 2 for v in range(1, size + 1)}
+    nxt = size + 1
+    for _ in range(rng.randint(2, 4)):
+        if rng.random() < 0.8:      # fuse on a bond
+            cand = [(a, b) for a, b in edges if deg[a] <= 3 and deg[b] <= 3]
+            if not cand:
+                break
+            a, b = rng.choice(cand)
+        else:                      # bridge two atoms two bonds apart
+            nb = {}
+            for x, y in edges:
+                nb.setdefault(x, []).append(y)
+                nb.setdefault(y, []).append(x)
+            cand = [(x, z) for y in nb for x in nb[y] for z in nb[y] if x < z and deg[x] <= 3 and deg[z] <= 3
+                    and z not in nb[x]]
+            if not cand:
+                continue
+            a, b = rng.choice(cand)
+        k = rng.choice([2, 3, 3, 4, 4])
+        path = [a] + list(range(nxt, nxt + k)) + [b]
+        nxt += k
+        for x, y in zip(path, path[1:]):
+            edges.append((x, y))
+            deg[x] = deg.get(x, 0) + 1
+            deg[y] = deg.get(y, 0) + 1
+    verts = sorted(deg)
+    elements = {}
+    for _ in range(rng.randint(1, 4)):
+        host = rng.choice([v for v in verts if deg[v] < 4])
+        edges.append((host, nxt))
+        deg[host] += 1
+        elements[nxt] = rng.choice(['O', 'N', 'F', 'C', 'C', 'Cl'])
+        nxt += 1
+    for v in rng.sample(verts, min(2, len(verts))):
+        if deg[v] <= 2 and rng.random() < 0.4:
+            elements[v] = rng.choice(['O', 'N'])
+    m = molgen.from_edges(edges, elements, None, None, nxt - 1)
+    for _ in range(3):     # labelling one centre can make further ones chiral
+        todo = [n for n in m.chiral_tetrahedrons if m._atoms[n].stereo is None]
+        if not todo:
+            break
+        for n in todo:
+            try:
+                m.add_atom_stereo(n, m.stereogenic_tetrahedrons[n], rng.random() < 0.5)
+            except Exception:  # noqa
+                continue
+    return m if has_stereo(m) else None
+
+
+# natural-product type representatives of the same classes (three or more fused rings with labelled fusion centres; single
+# ring bonds between aromatic atoms)
+POLYCYCLES = ['C[C@]12CC[C@H]3[C@@H](CCc4cc(O)ccc34)[C@@H]1CC[C@@H]2O', 'C[C@]12CC[C@H]3[C@@H](CCC4=CC(=O)CC[C@]34C)[C@@H]1CC[C@@H]2O',
+              'CN1CC[C@]23c4c5ccc(O)c4O[C@H]2[C@@H](O)C=C[C@H]3[C@H]1C5', 'CC1(C)[C@@H]2CC[C@@]1(C)C(=O)C2', 'O[C@]12CC3CC(CC(C3)C1)C2',
+              'O=C1c2ccccc2-c2ccccc12', 'c1ccc2c(c1)Cc1ccccc1-2', 'c1ccc2c(c1)-c1ccccc1-2', 'c1ccc2c(c1)-c1cccc3cccc-2c13',
+              'CC1(C)c2ccccc2-c2ccccc12', 'c1ccc2c(c1)CCc1ccccc1-2', 'O=C1c2ccccc2C(=O)c2ccccc12', 'c1ccc2c(c1)[nH]c1ccccc12']
+
+
+def polycycles(rng, quick):
+    out = []
+    for smi in POLYCYCLES:
+        m = molgen.parse(smi)
+        if m is not None:
+            out.append(('polycycle:' + smi, m))
+    for i in range(10 if quick else 120):
+        try:
+            out.append((f'benzo-assembly[{i}]', benzo_assembly(rng)))
+        except Exception:  # noqa
+            continue
+    for i in range(14 if quick else 200):
+        try:
+            m = stereo_polycycle(rng)
+        except Exception:  # noqa
+            m = None
+        if m is not None:
+            out.append((f'stereo-polycycle[{i}]', m))
+    return out
+
+
 def stereo_extra():
     out = []
     for s in STEREO_EXTRA:
@@ -537,6 +664,7 @@ def molecules(ctx):
     out += radical_api()
     out += wide_numbers()
     out += late_radicals(rng, q)
+    out += polycycles(rng, q)
     out += molgen.corpus(rng, 110 if q else 1200)
     for n in (3, 4, 5) if q else (3, 4, 5, 6):
         graphs = list(molgen.small_graphs(n))
@@ -684,6 +812,11 @@ def correspond(ctx):
             specs = [(sp, None) for sp in dict.fromkeys(['', 'r'] + ctx.rng.sample(SPECS[1:], n_specs))]
             if st:
                 specs += [('a', None)] + [('ra', None)] * 4
+                try:  # recycled closure numbers on labelled ring-fusion centres: needs three rings and many traversal orders
+                    if m.rings_count >= 3 and any(a.stereo is not None for a in m._atoms.values()):
+                        specs += [('r', None)] * 8 + [('ra', None), ('rh', None)]
+                except Exception:  # noqa
+                    pass
                 try:  # '/' on a ring-closure bond written at one end only: needs the closure to fall on that bond
                     if m.rings_count and any(b.stereo is not None for _, _, b in m.bonds()):
                         specs += [('ra', None)] * 12
@@ -721,6 +854,13 @@ def correspond(ctx):
                 else:
                     ctx.dist('random-order-K-skipped(draws-not-attributable)')
                 # relational: real reader on the real text, judged under the written order
+                if text is not None and spec == '' and tag == 'as-is':
+                    try:
+                        for x, y, b in m.bonds():
+                            if int(b) == 1 and m._atoms[x].hybridization == 4 == m._atoms[y].hybridization:
+                                ctx.dist('single-bond-between-aromatic-atoms:' + ('ring' if b.in_ring else 'chain'))
+                    except Exception:  # noqa
+                        pass
                 if text is not None and ' |^1:' in text:
                     for w in {len(x) for x in text.split(' |^1:')[1].rstrip('|').split(',')}:
                         ctx.dist(f'cx-radical-position-digits:{w}')
